@@ -200,6 +200,19 @@ MUTANTS = {
                          "refused", "another replacement of should_rerun (attribute store outside the pin)"),
     "run-rerun-first": ("rules", N, [("            should_run = should_run or self.should_rerun(worker)", "            should_run = self.should_rerun(worker) or should_run")],
                         "proof-breaks", "should_rerun evaluated before the scan result is looked at (another error behaviour)"),
+    # ---- TransferOps.download / upload / delete (C14, download_matches_source ...)
+    "dispatch-link-keeps-semicolon": ("transfer", P, [('            cls.download_link(cache_path, path.replace(";", ""), params)', '            cls.download_link(cache_path, path, params)')],
+                                      "proof-breaks", "link mode hands the path with its `;` on"),
+    "dispatch-local-for-link": ("transfer", P, [('            cls.upload_link(cache_path, path.replace(";", ""), params)', '            cls.upload_local(cache_path, path.replace(";", ""), params)')],
+                                "proof-breaks", "upload in link mode goes to upload_local (a link could be uploaded)"),
+    "dispatch-remote-test": ("transfer", P, [('        if hosts != "":\n            cls.delete_remote(pool_path, params)', '        if hosts == "":\n            cls.delete_remote(pool_path, params)')],
+                             "proof-breaks", "local locations treated as remote in delete"),
+    "dispatch-whole-location": ("transfer", P, [('            cls.download_local(cache_path, path, params)', '            cls.download_local(cache_path, pool_path, params)')],
+                                "proof-breaks", "the whole `hosts:path` string handed to download_local"),
+    "dispatch-link-marker": ("transfer", P, [('        elif ";" in path:\n            cls.download_link', '        elif "," in path:\n            cls.download_link')],
+                             "proof-breaks", "another link marker"),
+    "dispatch-partition": ("transfer", P, [('        hosts, path = pool_path.split(":")\n        if hosts != "":\n            cls.download_remote', '        hosts, _, path = pool_path.partition(":")\n        if hosts != "":\n            cls.download_remote')],
+                           "refused", "partition instead of split (no ValueError for extra colons): not an atom"),
 }
 
 TARGET = {"tunnel": ("GenTunnel.lean", "I2N.Props.C19"), "scope": ("GenScope.lean", "I2N.Props.C04"),
